@@ -4,7 +4,7 @@ from .shapes_geonet import *
 
 S = dict(mode="bv", spec_module="spec_geonet")
 
-contract(f"{CH}:CommonHeader.initialize_with_request", props=["C02", "C20", "C01"], shapes={"request": GNREQ, "mib": MIB},
+contract(f"{CH}:CommonHeader.initialize_with_request", props=["C02", "C20", "C01"], shapes={"request": GNREQ, "mib": MIB}, returns=COMMON,
          ensures={"nh": "result.nh == request.upper_protocol_entity",
                   "type": "result.ht == request.packet_transport_type.header_type and result.hst == request.packet_transport_type.header_subtype",
                   "tc": "result.tc == request.traffic_class",
@@ -13,8 +13,9 @@ contract(f"{CH}:CommonHeader.initialize_with_request", props=["C02", "C20", "C01
                   "mhl": "result.mhl == (1 if is_shb(request.packet_transport_type) else request.max_hop_limit)",
                   "reserved": "result.reserved == 0"},
          canary={"flag_lsb": "result.flags == mib.itsGnIsMobile.value"}, **S)
-contract(f"{CH}:CommonHeader.initialize_beacon", props=["C02", "C20"], shapes={"mib": MIB},
-         ensures={"nh": "result.nh.value == 0", "type": "result.ht.value == 1 and result.hst.value == 0",
-                  "tc": "tc_int(result.tc) == 0",
+contract(f"{CH}:CommonHeader.initialize_beacon", props=["C02", "C20"], shapes={"mib": MIB}, returns=COMMON,
+         ensures={"nh": "result.nh.value == 0", "type": "result.ht.value == 1 and result.hst.value == 0 and hst_class_ok(result.ht, result.hst)",
+                  "flags_octet": "0 <= result.flags <= 255",
+                  "tc": "result.tc.tc_id == 0 and not result.tc.scf and not result.tc.channel_offload",
                   "mobile_flag_msb": "result.flags == mib.itsGnIsMobile.value * 128",
                   "pl": "result.pl == 0", "mhl": "result.mhl == 1", "reserved": "result.reserved == 0"}, **S)
